@@ -81,7 +81,9 @@ class C11(Prop):
     THEOREMS = ["C11_fifo_order", "C11_splice", "C11_file_prefix", "C11_schedule_independent", "C11_offsets_address_sections",
                 "C11_splice_bigwig", "C11_splice_bigbed", "C11_progress", "C11_completion", "C11_await_never_blocks", "C11_buffer_contract", "C11_lanes_splice",
                 "C11_converter_order", "C11_converter_progress", "C11_converter_completion", "C11_converter_await_never_blocks",
-                "C11_refine_step", "C11_refines", "C11_buffers_are_c12", "C11_splice_concrete"]
+                "C11_refine_step", "C11_refines", "C11_buffers_are_c12", "C11_splice_concrete",
+                "C11_lanes_progress", "C11_lanes_completion", "C11_lanes_waits",
+                "C11_zoom_levels_splice", "C11_zoom_assembly", "C11_zoom_assembly_bigwig", "C11_zoom_progress", "C11_zoom_completion"]
     RULE = ("inputs: 1-10 chromosomes (names whose input, lexicographic and id order differ), per chromosome up to 40 sorted items, "
             "items_per_slot mostly 1/2/3/7 so that a chromosome has many sections, block sizes 2..256, zoom modes auto/small/manual/none, "
             "compressed and uncompressed, bigWig (60%) and bigBed (40%), single and two pass; each input is written by the real writer "
